@@ -215,6 +215,14 @@ CORPUS = {
     'C29': ['test/test_priority.py', 'test/test_h2_upgrade.py', 'test/test_rfc7838.py'],
 }
 
+# ---------------------------------------------------------------- unbounded obligations discharged by Apalache (inductive invariants)
+# (module under spec/apalache, [(init, inv, length, what)])
+APALACHE = {
+    'C05': ('WindowsInd', [('Init', 'IndInv', 0, 'the invariant holds initially, for every maximum 0..2^31-1'),
+                           ('IndInit', 'IndInv', 1, 'every step (DATA that fits, acknowledgement of any size) preserves it'),
+                           ('IndInit', 'Goal', 0, 'it implies: no stall once everything is acknowledged; never above the maximum / 2^31-1')]),
+}
+
 # formulas of spec/Scn.tla that belong to each property (a PROPFAIL of one of them on a recorded trace is a violation of it)
 FORMULAS = {pid: sorted({i for sc_ in PROPS[pid]['scenarios'] for i in sc_.get('invariants', [])}) for pid in PROPS}
 FORMULAS['C10'] = FORMULAS['C10'] + ['P_C10_InboundWithinLocalLimit']
